@@ -68,6 +68,32 @@ static void v_build(void)
 	v_task.list.prev = &v_task.list;
 }
 
+/* the task under test sits on a list, between two neighbours that are either
+ * both the list head (only element), head and another node, or two nodes */
+static void v_build_on_list(void)
+{
+	struct iv_list_head *head, *p, *n;
+
+	v_build();
+	__CPROVER_assume(verif_in.t_where == 1 || (verif_in.t_where == 2 && verif_in.batch_present));
+	__CPROVER_assume(verif_in.numobjs >= 1);
+	head = (verif_in.t_where == 1) ? &v_state.tasks : &v_batch;
+	if (verif_in.shape_pending == 0) {		/* only element */
+		p = head; n = head;
+	} else if (verif_in.shape_pending == 1) {	/* first of several */
+		p = head; n = &v_pother;
+		v_pother.next = head; head->prev = &v_pother;
+	} else {					/* between two nodes */
+		p = &v_ptail; n = &v_pother;
+		head->next = &v_ptail; v_ptail.prev = head;
+		v_pother.next = head; head->prev = &v_pother;
+	}
+	p->next = &v_task.list;
+	n->prev = &v_task.list;
+	v_task.list.prev = p;
+	v_task.list.next = n;
+}
+
 /* the list the task must join (C06): the running batch iff one is running
  * and the task has not yet run in this round */
 #define JOINS_BATCH(st, t)						\
@@ -104,5 +130,57 @@ void h_iv_task_register(void)
 {
 	v_build();
 	CALL(iv_task_register)((struct iv_task *)&v_task);
+	CANARY();
+}
+
+/* ------------------------------------------------------------------ */
+void iv_task_unregister__contract(struct iv_task *_t)
+__CPROVER_requires(verif_st->numobjs >= 1)
+__CPROVER_requires(TASK(_t)->list.next != &TASK(_t)->list && WF_NODE(&TASK(_t)->list))
+__CPROVER_assigns(verif_st->numobjs, TASK(_t)->list,
+		  TASK(_t)->list.prev->next, TASK(_t)->list.next->prev)
+__CPROVER_ensures(verif_st->numobjs == __CPROVER_old(verif_st->numobjs) - 1)	/* [C07] accounting: -1 */
+__CPROVER_ensures(__CPROVER_old(TASK(_t)->list.prev)->next == __CPROVER_old(TASK(_t)->list.next))	/* [C01] old neighbours are linked to each other: the task is on no library list */
+__CPROVER_ensures(__CPROVER_old(TASK(_t)->list.next)->prev == __CPROVER_old(TASK(_t)->list.prev))	/* [C01] unlinked from whichever batch held it */
+__CPROVER_ensures(TASK(_t)->list.next == &TASK(_t)->list && TASK(_t)->list.prev == &TASK(_t)->list)	/* [C01,C06] reads as unregistered afterwards */
+;
+
+void h_iv_task_unregister(void)
+{
+	v_build_on_list();
+	CALL(iv_task_unregister)((struct iv_task *)&v_task);
+	CANARY();
+}
+
+/* ------------------------------------------------------------------ */
+void IV_TASK_INIT__contract(struct iv_task *_t)
+__CPROVER_assigns(TASK(_t)->list, TASK(_t)->epoch)
+__CPROVER_ensures(TASK(_t)->list.next == &TASK(_t)->list && TASK(_t)->list.prev == &TASK(_t)->list)	/* [C06] initialised task is unregistered */
+__CPROVER_ensures(TASK(_t)->epoch == (verif_st != NULL ? verif_st->task_epoch : 0))	/* [C06] stamped with the current round, so a task initialised inside a round joins the next one only if it already ran */
+;
+
+void h_IV_TASK_INIT(void)
+{
+	v_build();
+	if (verif_in.t_where == 2)
+		verif_st = NULL;		/* thread without a loop state */
+	CALL(IV_TASK_INIT)((struct iv_task *)&v_task);
+	CANARY();
+}
+
+/* ------------------------------------------------------------------ */
+int iv_task_registered__contract(const struct iv_task *_t)
+__CPROVER_assigns()
+__CPROVER_ensures(__CPROVER_return_value == (TASK(_t)->list.next != &TASK(_t)->list))
+;
+
+void h_iv_task_registered(void)
+{
+	int r;
+
+	v_build();
+	if (verif_in.t_where)
+		v_build_on_list();
+	r = CALL(iv_task_registered)((struct iv_task *)&v_task);
 	CANARY();
 }
